@@ -21,6 +21,7 @@ static mzd_t *obs_mat(int nr, int nc) {
 
 #if defined(H_EQUAL)
 void harness(void) {
+  verif_init(0);
   enum { W = WORDS(NC) };
   mzd_t *A = obs_mat(NR, NC), *B = obs_mat(NR, NC);
   static word a[NR * W], b[NR * W];
@@ -43,6 +44,7 @@ void harness(void) {
 
 #if defined(H_CMPTRANS)
 void harness(void) {
+  verif_init(0);
   mzd_t *A = obs_mat(NR, NC), *B = obs_mat(NR, NC), *C = obs_mat(NR, NC);
   int ab = mzd_cmp(A, B), bc = mzd_cmp(B, C), ac = mzd_cmp(A, C);
   if (ab < 0 && bc < 0) VASSERT(ac < 0, "cmp transitive (<)");
@@ -54,6 +56,7 @@ void harness(void) {
 
 #if defined(H_ISZERO)
 void harness(void) {
+  verif_init(0);
   enum { W = WORDS(NC) };
   mzd_t *A = obs_mat(NR, NC);
   static word a[NR * W];
@@ -88,6 +91,7 @@ static int ctz64(word m) { /* m != 0 */
   return n;
 }
 void harness(void) {
+  verif_init(0);
   enum { W = WORDS(NC) };
   mzd_t *A = obs_mat(NR, NC);
   static word a[NR * W];
@@ -126,6 +130,7 @@ void harness(void) {
 
 #if defined(H_RWBIT)
 void harness(void) {
+  verif_init(0);
   enum { W = WORDS(NC) };
   mzd_t *A = obs_mat(NR, NC);
   static word a[NR * W];
